@@ -2,7 +2,7 @@
 # tools/mutate.sh <patch.diff> <Cxx> [<Cxx>...]   apply a mutation to /repo, run quick checks, restore.
 # Prints for each property: CAUGHT / MISSED. Never leaves /repo modified.
 set -u
-PATCH="$1"; shift
+PATCH="$(readlink -f "$1")"; shift
 cd /repo
 if ! git diff --quiet; then echo "repo dirty, refusing"; exit 2; fi
 if ! git apply "$PATCH"; then echo "patch does not apply: $PATCH"; exit 2; fi
